@@ -445,6 +445,7 @@ func (fr *Frame) prepareCall(site ssa.Instruction, cc *ssa.CallCommon) (Value, [
 		if recv.t == nil {
 			fr.rtPanic(site, "invalid memory address or nil pointer dereference (method call on nil interface)")
 		}
+		recv = fr.ex.resolveIface(fr, site, recv)
 		if in := fr.ex.ifaceIntrinsic(recv, cc.Method); in != nil {
 			fn = in
 			args = append(args, recv)
@@ -654,8 +655,19 @@ func (ex *Exec) binop(fr *Frame, site ssa.Instruction, op token.Token, t types.T
 				}
 				// Go truncates toward zero; SMT div floors: only equal for non-negative dividends
 				nonneg := tIntCmp(">=", a, mkInt(0))
+				if a.HasRng && a.Lo >= 0 {
+					nonneg = tTrue
+				}
 				if v, ok := nonneg.BoolVal(); ok && v {
-					return newTerm(opn, SInt, a, b)
+					r := newTerm(opn, SInt, a, b)
+					if a.HasRng {
+						if op == token.QUO {
+							r.HasRng, r.Lo, r.Hi = true, a.Lo/d, a.Hi/d
+						} else {
+							r.HasRng, r.Lo, r.Hi = true, 0, d-1
+						}
+					}
+					return r
 				}
 				if x, ok := a.IntVal(); ok {
 					if op == token.REM {
@@ -789,6 +801,10 @@ func (ex *Exec) valEq(x, y Value) *Term {
 		}
 		if a.t == nil || b.t == nil {
 			return mkBool(a.t == nil && b.t == nil)
+		}
+		if isLazyIface(a) || isLazyIface(b) {
+			a = ex.resolveIface(nil, nil, a)
+			b = ex.resolveIface(nil, nil, b)
 		}
 		if !types.Identical(a.t, b.t) {
 			return tFalse
@@ -1185,7 +1201,18 @@ func (ex *Exec) typeAssert(fr *Frame, in *ssa.TypeAssert) Value {
 	x := fr.get(in.X).(Iface)
 	ok := false
 	var res Value
-	if x.t != nil {
+	if isLazyIface(x) {
+		if it, isIface := in.AssertedType.Underlying().(*types.Interface); isIface {
+			if it.NumMethods() == 0 {
+				ok, res = true, x
+			}
+		} else {
+			res, ok = ex.lazyTypeAssert(fr, in, x, in.AssertedType)
+		}
+		if !ok && !in.CommaOk {
+			x = ex.resolveIface(fr, in, x) // for the panic message
+		}
+	} else if x.t != nil {
 		if it, isIface := in.AssertedType.Underlying().(*types.Interface); isIface {
 			ok = ex.implements(x.t, it)
 			if ok {
